@@ -25,6 +25,13 @@ theorem tie_iteratorMoves :
     ∧ Generated.C02.iteratorValueMoves = ["it.reader.getBlock", "it.idx++"]
     ∧ Generated.C02.iteratorHasNextMoves = ["it.keyIt.HasNext"] := by decide
 
+/-- who scans: the only `.Iterator()` call of package kv is the compaction's (also the rollup job's: same compactJob)
+`makeInputIterator`, which opens every input through the job's snapshot (`GetReader`, i.e. the cached reader) and then
+calls `Iterator()` on it — a model `openScan` per input table, the merged iterator only consumes those objects -/
+theorem tie_scanCallSites :
+    Generated.C02.kvScanSites = ["compact_job.go:makeInputIterator:reader"]
+    ∧ Generated.C02.makeInputIteratorCalls = ["snapshot.GetReader", "reader.Iterator", "table.NewMergedIterator"] := by decide
+
 theorem code_private : codeCfg.shared = false := rfl
 
 /-- every scan's handle points to its own object, positioned on the file it opened, and what it was handed so far is
@@ -131,6 +138,19 @@ theorem scan_invariant {cfg : Cfg} (hc : cfg.shared = false) {content : Nat → 
   | init => exact ⟨inv_init _, rfl⟩
   | step a _ hs ih => exact ⟨inv_step hc ih.1 hs, (step_content hs).trans ih.2⟩
 
+/-- every state a schedule (`run`) leads to is reachable: the theorems below hold along every executed schedule,
+the compaction's input scans (`makeInputIterator` = one `openScan` per input, ids of its own) included -/
+theorem run_reachable {cfg : Cfg} {content : Nat → Table} {s s' : St} (hr : Reachable cfg content s) (acts : List Act)
+    (h : run cfg s acts = some s') : Reachable cfg content s' := by
+  induction acts generalizing s with
+  | nil => simp [run] at h; subst h; exact hr
+  | cons a rest ih =>
+    simp only [run] at h
+    split at h
+    · cases h
+    · rename_i s1 hs1
+      exact ih (Reachable.step a hr hs1) h
+
 /-- what a scan was handed so far is a prefix of the content of the table it opened — no matter how many other
 scans of the same cached reader started, advanced or finished in between -/
 theorem scan_yields_prefix_of_table {cfg : Cfg} (hc : cfg.shared = false) {content : Nat → Table} {s : St}
@@ -197,6 +217,51 @@ theorem other_scan_step_keeps_scan {cfg : Cfg} (hc : cfg.shared = false) {conten
         have : i ≠ j := fun e => hne e.symm
         simp [this]
 
+/-- `compactJob.makeInputIterator`: one `Iterator()` call per input table, in order (scan ids base, base+1, …) -/
+def inputActs : Nat → List Nat → List Act
+  | _, [] => []
+  | base, f :: fs => .openScan base f :: inputActs (base + 1) fs
+
+/-- the compaction's `makeInputIterator` in the middle of ANY state (readers in the middle of scans of the same
+tables): it is always enabled, every input scan starts on its own object at the first entry of its table, and no scan
+with a smaller id (the readers') has its handle, object or observations touched -/
+theorem input_scans_opened {cfg : Cfg} (hc : cfg.shared = false) (files : List Nat) :
+    ∀ (base : Nat) (s : St), ∃ s', run cfg s (inputActs base files) = some s'
+      ∧ (∀ j (hj : j < files.length), s'.h (base + j) = some (.own (base + j)) ∧ s'.opened (base + j) = files[j]
+            ∧ s'.keys (base + j) = [] ∧ s'.vals (base + j) = [] ∧ s'.it (.own (base + j)) = ⟨files[j], 0, 0⟩)
+      ∧ (∀ i, i < base → s'.h i = s.h i ∧ s'.keys i = s.keys i ∧ s'.vals i = s.vals i
+            ∧ s'.it (.own i) = s.it (.own i) ∧ s'.opened i = s.opened i) := by
+  induction files with
+  | nil => intro base s; exact ⟨s, rfl, fun j hj => absurd hj (Nat.not_lt_zero _), fun i _ => ⟨rfl, rfl, rfl, rfl, rfl⟩⟩
+  | cons f fs ih =>
+    intro base s
+    obtain ⟨s1, hs1⟩ : ∃ s1, step cfg s (.openScan base f) = some s1 := ⟨_, rfl⟩
+    obtain ⟨s', hrun, hnew, hold⟩ := ih (base + 1) s1
+    refine ⟨s', by simp only [inputActs, run, hs1]; exact hrun, ?_, ?_⟩
+    · intro j hj
+      cases j with
+      | zero =>
+        obtain ⟨g1, g2, g3, g4, g5⟩ := hold base (Nat.lt_succ_self _)
+        simp only [step, objFor, hc] at hs1
+        cases hs1
+        simp only [Nat.add_zero, List.getElem_cons_zero]
+        simp at g1 g2 g3 g4 g5
+        exact ⟨g1, g5, g2, g3, g4⟩
+      | succ j =>
+        have hj' : j < fs.length := by simpa using hj
+        have e : base + (j + 1) = base + 1 + j := by omega
+        obtain ⟨g1, g2, g3, g4, g5⟩ := hnew j hj'
+        simp only [e, List.getElem_cons_succ]
+        exact ⟨g1, g2, g3, g4, g5⟩
+    · intro i hi
+      obtain ⟨g1, g2, g3, g4, g5⟩ := hold i (Nat.lt_succ_of_lt hi)
+      have hne : i ≠ base := Nat.ne_of_lt hi
+      simp only [step, objFor, hc] at hs1
+      cases hs1
+      simp [hne] at g1 g2 g3 g4 g5
+      exact ⟨g1, g2, g3, g4, g5⟩
+
+
 theorem scan_current_source {content : Nat → Table} {s : St} (hr : Reachable codeCfg content s)
     {i : Nat} {o : Obj} (ho : s.h i = some o) (hend : hasNext s i = false) (hv : (s.it o).vidx = (s.it o).kpos) :
     (s.keys i).zip (s.vals i) = content (s.opened i) :=
@@ -213,6 +278,11 @@ def demoTrace : List Act :=
 example : ((run {} (St.init demoContent) demoTrace).map
     (fun s => ((s.keys 0).zip (s.vals 0), (s.keys 1).zip (s.vals 1), hasNext s 0))) =
     some ([(1, [10]), (2, [20]), (3, [30])], [(1, [10]), (2, [20]), (3, [30])], false) := by decide
+
+/-- a compaction opening its inputs (7 and 8) while reader scan 0 is inside table 7; both go on -/
+example : ((run {} (St.init demoContent)
+    ([.openScan 0 7, .key 0, .value 0] ++ inputActs 10 [7, 8] ++ [.key 10, .value 10, .key 0, .value 0])).map
+    (fun s => (s.keys 0, s.keys 10, hasNext s 11))) = some ([1, 2], [1], false) := by decide
 
 namespace Neg
 /-- one iterator object per reader (rewound by every `Iterator()` call): the same schedule stops scan 0 after ONE of
